@@ -189,23 +189,36 @@ func runC07(c *core.Ctx) {
 			c.Fail(key+"#visit-first", p.Pos(fn.Pos()), "walkAdv does not call visit")
 		} else {
 			bad := false
+			nclosure := 0
 			for _, ci := range core.Calls(fn) {
 				cc := ci.Common()
-				if cc.StaticCallee() != nil || cc.IsInvoke() {
+				if cc.IsInvoke() {
 					continue
 				}
 				isClosure := false
-				for w := range core.BackSlice(cc.Value, core.SliceOpts{Stores: true}) {
-					if _, ok := w.(*ssa.MakeClosure); ok {
-						isClosure = true
+				if cal := cc.StaticCallee(); cal != nil {
+					// go/ssa resolves calls of a local closure variable statically
+					isClosure = cal.Parent() == fn
+					if cal.Name() == "explore" {
+						isClosure = true // direct descent without the closure
+					}
+				} else {
+					for w := range core.BackSlice(cc.Value, core.SliceOpts{Stores: true}) {
+						if _, ok := w.(*ssa.MakeClosure); ok {
+							isClosure = true
+						}
 					}
 				}
 				if !isClosure {
 					continue
 				}
+				nclosure++
 				if _, reached := core.Reach(fn, nil, isTarget(ci), nil, isTarget(visit)); reached {
 					bad = true
 				}
+			}
+			if nclosure == 0 {
+				bad = true // no descent call recognised: the rule would be vacuous
 			}
 			c.Check(!bad, key+"#visit-first", p.Pos(visit.Pos()), "children are explored only after the node itself was visited", "a child can be explored before its parent node was visited (visit order is no longer depth-first pre-order)")
 		}
